@@ -238,6 +238,13 @@ class Sched:
             return None if extra is None else "timer"
         raise DoubleMisuse(kind)
 
+    def is_idle(self, t):
+        """idle = found nothing to do for IDLE_ITERS iterations AND is waiting at its iteration boundary"""
+        if not t.idle or t.pending is None:
+            return False
+        k = t.pending[0]
+        return (k == "sleep" and (t.pending[2] or 0) < SHORT) or k == "select"
+
     def candidates(self):
         go, timers = [], []
         for t in self.threads:
@@ -251,14 +258,15 @@ class Sched:
     def choose(self, chooser=None):
         """returns (thread, fire_timeout) or None when nothing can run"""
         go, timers = self.candidates()
-        busy = [t for t in go if not t.idle]
+        busy = [t for t in go if not self.is_idle(t)]
         if busy:
             pool = busy
             if len(busy) < len(go) and self.rng.random() < self.idle_bias:
                 pool = go
             t = chooser(pool) if chooser else self.rng.choice(pool)
             return t, False
-        if timers:
+        if timers and not (go and self.rng.random() < 0.5):
+            # quiescence: a long timer fires (idle tickers keep ticking in between, so none of them starves)
             t = min(timers, key=lambda x: (x.deadline, self.threads.index(x)))
             return t, True
         if go:
@@ -305,7 +313,7 @@ class Sched:
     def quiescent(self):
         """no thread can make progress except idle tickers and long timers"""
         go, _timers = self.candidates()
-        return not [t for t in go if not t.idle]
+        return not [t for t in go if not self.is_idle(t)]
 
     def describe_blocked(self):
         out = []
@@ -336,6 +344,31 @@ class Sched:
             self.opcode_budget -= 1
             self.yield_op(("op", None, "opcode"), write=False)
         return self._optrace
+
+
+class PCT:
+    """PCT-style chooser (Burckhardt et al.): every thread gets a random priority when first seen, the
+    enabled thread with the highest priority runs, and at d randomly chosen step indices the running
+    thread's priority drops below all others.  Finds orderings in which one thread is delayed for long."""
+    def __init__(self, seed, depth=2, horizon=400):
+        self.rng = random.Random(seed)
+        self.prio = {}
+        self.low = 0
+        self.changes = sorted(self.rng.randrange(1, horizon) for _ in range(depth))
+        self.n = 0
+
+    def __call__(self, pool):
+        self.n += 1
+        for t in pool:
+            if id(t) not in self.prio:
+                self.prio[id(t)] = self.rng.random() + 1.0
+        t = max(pool, key=lambda x: self.prio[id(x)])
+        if self.changes and self.n >= self.changes[0]:
+            self.changes.pop(0)
+            self.low -= 1
+            self.prio[id(t)] = self.low
+            t = max(pool, key=lambda x: self.prio[id(x)])
+        return t
 
 
 SCHED = None
